@@ -31,6 +31,7 @@ type Job struct {
 // X is the extracted view of an instance.
 type X struct {
 	In       *Instance
+	W        *ast.FuncLit // the closure holding the directive body (== In.Wrapper, or the closure it returns after the prologue)
 	Par      astx.Parents
 	Body     *ast.BlockStmt
 	Prologue []*ast.AssignStmt
@@ -84,15 +85,27 @@ func Extract(in *Instance) *X {
 	}
 	info := in.Info
 	x.Par = astx.NewParents(in.Wrapper)
-	x.Body = in.Wrapper.Body
-	if !astx.NoGoto(x.Body) {
+	x.W = in.Wrapper
+	if !astx.NoGoto(in.Wrapper.Body) {
 		x.problem("generated code uses goto/labels")
 	}
-	if r := in.Wrapper.Type.Results; r != nil && len(r.List) == 1 && len(r.List[0].Names) == 1 {
+	// prologue: leading `_L_C := expr` statements of the outermost closure
+	outer := in.Wrapper.Body
+	for i, st := range outer.List {
+		// outer/inner shape: [prologue...] return func() (err error) { body }()
+		if ret, ok := st.(*ast.ReturnStmt); ok && i == len(outer.List)-1 && len(ret.Results) == 1 {
+			if c, ok := ret.Results[0].(*ast.CallExpr); ok && len(c.Args) == 0 {
+				if fl, ok := c.Fun.(*ast.FuncLit); ok {
+					x.W = fl
+				}
+			}
+		}
+	}
+	x.Body = x.W.Body
+	if r := x.W.Type.Results; r != nil && len(r.List) == 1 && len(r.List[0].Names) == 1 {
 		x.ErrObj = info.Defs[r.List[0].Names[0]]
 	}
-	// prologue
-	for _, st := range x.Body.List {
+	for _, st := range outer.List {
 		as, ok := st.(*ast.AssignStmt)
 		if !ok || as.Tok != token.DEFINE || len(as.Lhs) != 1 || len(as.Rhs) != 1 {
 			break
@@ -249,7 +262,7 @@ func (x *X) hoistedCallee(c *ast.CallExpr) (string, bool) {
 }
 
 func (x *X) loopWithinWrapper(n ast.Node) ast.Stmt {
-	for p := x.Par[n]; p != nil && p != ast.Node(x.In.Wrapper); p = x.Par[p] {
+	for p := x.Par[n]; p != nil && p != ast.Node(x.W); p = x.Par[p] {
 		switch s := p.(type) {
 		case *ast.ForStmt:
 			return s
